@@ -215,6 +215,7 @@ func path0(p []string) string {
 }
 
 func c15Run(c *Ctx) {
+	wordsInOtherRoles(c, "C15")
 	lineNS := "dbZq1.coQx7"
 	type nsRel struct {
 		tag, prefix string
@@ -530,7 +531,7 @@ func c15Sequences(c *Ctx) {
 func init() {
 	register(&PropDef{
 		ID: "C15", Level: "exploration",
-		Rule:        "G at 0 deviations (all slots x 4 gates x 6 containers; <=1 non-default production for the distinctive name set) with user field names planted from 5 adversarial pools (shaped like the tool's own pseudonyms; distinctive; one-letter names and names that are substrings of each other, of 'IXSCAN' and of 'REDACTED'; hex-looking and digit-leading; long / non-ASCII / with space / with quote) in the positions the property lists (keys of filter / query / update / inserted documents / sort, $match and $sort stages; '$field' references) - positions it does not list ($group / $project / $addFields keys, search paths) draw from a separate pool - x 7 plan summaries (COLLSCAN, IDHACK, IXSCAN single / compound / dotted / several / same name twice) built from the same names x configured prefix vs line namespace {equal, database only, partial, different database, longer than the namespace} x {plain, N+B+replacement}. Oracles, against the output without the flag walked in parallel: listed keys and references hold the component-wise pseudonym of their name (same everywhere), operators and structural keys are unchanged, member count and order kept, every other value identical to the run without the flag, the plan summary equals the input with each index key replaced by its pseudonym, no planted name remains as a key component, reference component or plan-summary token (names of 8+ characters: anywhere), and lines of other namespaces are byte-identical to the run without the flag. distinct = distinct input lines" + "; prefix lists: every ordered list of 1..3 out of 8 prefixes (+3 special lists) x 9 namespaces in-process, every 3rd list (thorough: all) through the CLI; sequences: all sequences of 2..3 lines over a 6-line alphabet (chosen / foreign namespaces with identical plan summaries and names) x 2 flag sets through the CLI against one-line runs",
+		Rule:        "G at 0 deviations (all slots x 4 gates x 6 containers; <=1 non-default production for the distinctive name set) with user field names planted from 5 adversarial pools (shaped like the tool's own pseudonyms; distinctive; one-letter names and names that are substrings of each other, of 'IXSCAN' and of 'REDACTED'; hex-looking and digit-leading; long / non-ASCII / with space / with quote) in the positions the property lists (keys of filter / query / update / inserted documents / sort, $match and $sort stages; '$field' references) - positions it does not list ($group / $project / $addFields keys, search paths) draw from a separate pool - x 7 plan summaries (COLLSCAN, IDHACK, IXSCAN single / compound / dotted / several / same name twice) built from the same names x configured prefix vs line namespace {equal, database only, partial, different database, longer than the namespace} x {plain, N+B+replacement}. Oracles, against the output without the flag walked in parallel: listed keys and references hold the component-wise pseudonym of their name (same everywhere), operators and structural keys are unchanged, member count and order kept, every other value identical to the run without the flag, the plan summary equals the input with each index key replaced by its pseudonym, no planted name remains as a key component, reference component or plan-summary token (names of 8+ characters: anywhere), and lines of other namespaces are byte-identical to the run without the flag. distinct = distinct input lines" + "; prefix lists: every ordered list of 1..3 out of 8 prefixes (+3 special lists) x 9 namespaces in-process, every 3rd list (thorough: all) through the CLI; sequences: all sequences of 2..3 lines over a 6-line alphabet (chosen / foreign namespaces with identical plan summaries and names) x 2 flag sets through the CLI against one-line runs" + wordsRule,
 		Assumptions: []string{"the pseudonym function is C13's subject; its value is taken from the tool", "$$ variables and positions the property does not list are don't-care"},
 		Run:         c15Run,
 	})
